@@ -158,6 +158,9 @@ type PrintOpt struct {
 	TrailingComma bool
 	// Pad is written before the first token (leading white space)
 	Pad string
+	// Blank replaces the single blank written around operators and after commas / colons
+	// ("" = " "): a tab, a carriage return, several blanks
+	Blank string `json:"blank,omitempty"`
 }
 
 type printer struct {
@@ -169,6 +172,9 @@ type printer struct {
 
 func (p *printer) emit(s string) (start int) {
 	start = len(p.b)
+	if p.o.Blank != "" && strings.TrimLeft(s, ",:") == " " {
+		s = s[:len(s)-1] + p.o.Blank
+	}
 	for _, r := range s {
 		p.b = append(p.b, r)
 		if r == '\n' {
